@@ -1,8 +1,12 @@
 """accumulator shared by the bounded drivers"""
 
 
+CURRENT = []
+
+
 class Report:
     def __init__(self, bound):
+        CURRENT.append(self)
         self.bound = bound
         self.evaluations = 0
         self.distinct = set()
